@@ -34,7 +34,8 @@ ASSUMPTIONS = [
     "cirq.unitary(op)/cirq.kraus(op) are taken as the meaning of a single primitive operation (C03/C04/C09 decide those); "
     "composition, ordering, sub-circuit flattening, measurement/feed-forward semantics are recomputed independently",
     "cirq.resolve_parameters is trusted for resolving drawn symbol values before comparing (C10)",
-    "tolerance: 1e-6 + 2e-7*#ops (+16*atol*#ops for passes that are approximate by contract)",
+    "tolerance: 1e-6 + 2e-7*#ops (+16*atol*#ops for passes that are approximate by contract; +2e-5*#ops for insertion_sort, whose "
+    "swap criterion cirq.commutes compares matrices with numpy's rtol=1e-5)",
     "a generic input state (deterministic function of a drawn integer) plus |0..0> stand in for full channel equality",
 ]
 def _mutant_names():
@@ -1002,16 +1003,14 @@ def _f28(sub, recipe):
 
 
 def _f29(sub, recipe):
-    """unroll_circuit_op_greedy_frontier (insert_at_frontier) orders the unrolled ops by qubit frontier only: an op controlled by a key
-    can land before the measurement of that key when both come out of one sub-circuit."""
+    """unroll_circuit_op_greedy_frontier (Circuit.insert_at_frontier) orders the unrolled ops by qubit frontier only: whenever a
+    sub-circuit is unrolled in a circuit that has both a measurement and an op controlled by a key, the control can land before the
+    measurement of that key (both inside the sub-circuit, or one inside and one outside)."""
     if recipe.get("row") != "unroll_circuit_op_greedy_frontier":
         return False
-    for o in _ops_of(recipe):
-        if o.get("k") == "sub":
-            kinds = {o2.get("k") for o2 in G6.walk_ops(o.get("body"))}
-            if "m" in kinds and "cc" in kinds:
-                return True
-    return False
+    ops_ = _ops_of(recipe)
+    kinds = {o.get("k") for o in ops_}
+    return "sub" in kinds and "m" in kinds and "cc" in kinds
 
 
 def _f30(sub, recipe):
@@ -1035,7 +1034,27 @@ def _f31(sub, recipe):
                for o in _ops_of(recipe))
 
 
+def _f33(sub, recipe):
+    """merge_operations(_to_circuit_op) guard the order of a measurement against controls on its key, but not against ANOTHER
+    measurement of the same (repeated) key: a merged measurement dragged to a later moment changes the order of the key's instances."""
+    row, x = recipe.get("row"), ((recipe.get("o") or {}).get("x") or {})
+    hit = (row == "merge_operations" and int(x.get("f", 0)) % 4 == 3) or (row == "merge_operations_to_circuit_op" and int(x.get("f", 0)) % 4 == 2)
+    if not hit or not (recipe.get("c") or {}).get("repkeys"):
+        return False
+    seen = set()
+    for o in _ops_of(recipe):
+        if o.get("k") == "m":
+            sig = (int(o.get("key", 0)) % 3, len(set(o.get("w", []))))
+            if sig in seen:
+                return True
+            seen.add(sig)
+        if o.get("k") == "sub" and o.get("reps") == 2 and any(o2.get("k") == "m" for o2 in G6.walk_ops(o.get("body"))):
+            return True
+    return False
+
+
 KNOWN_FEATURES = {
+
 
     "F29_unroll_greedy_frontier_key_order": _f29,
 
